@@ -611,9 +611,9 @@ class GenericPlainRegistry(Generic[QuantityT, UnitT], metaclass=RegistryMeta):
             except Exception:
                 # defined in terms of something that is not defined (yet)
                 return
-            self._cache.dimensional_equivalents.setdefault(di, set()).add(
-                definition.name
-            )
+            # (a query for a dimensionality no unit had yet left a frozenset there)
+            equivalents = self._cache.dimensional_equivalents
+            equivalents[di] = set(equivalents.get(di, ())) | {definition.name}
 
     def load_definitions(
         self, file: Iterable[str] | str | pathlib.Path, is_resource: bool = False
